@@ -176,7 +176,21 @@ def run(rep):
         rule = 'C15.zero-value' if what.startswith('zero') else 'C15.literal-row'
         key = ('C15.zero-value:' if what.startswith('zero') else 'C15.literal:') + what.split('(')[0].replace('literal ', '').replace('zero value ', '') + \
               (':' + what.split('(')[1].rstrip(')') if '(' in what else '')
-        rep.check(len(items) == 1 and squash(items[0]) == squash(exp), rule, key, where,
+        same = len(items) == 1 and squash(items[0]) == squash(exp)
+        if not same and len(items) == 1 and what.startswith('zero'):
+            # the zero of the declared type may be spelled without a suffix (`pub const Z: f32 = 0.0;`, `pub const N: u32 = 0;`): the declared type
+            # types the literal.  (An integer literal for a float type - `f32 = 0` - does not type-check: not accepted.)
+            import re as _re
+            mi, me = _re.fullmatch(r'pubconst(\w+):(\w+)=(\S+);', squash(items[0])), _re.fullmatch(r'pubconst(\w+):(\w+)=(\S+);', squash(exp))
+            if mi and me and mi.group(1) == me.group(1) and mi.group(2) == me.group(2):
+                ty_, v_ = mi.group(2), mi.group(3)
+                if ty_ in ('f32', 'f64'):
+                    same = bool(_re.fullmatch(r'0(\.0*)(' + ty_ + r')?|0' + ty_, v_))
+                elif ty_ == 'bool':
+                    same = v_ == 'false'
+                else:
+                    same = bool(_re.fullmatch(r'0(' + ty_ + r')?', v_))
+        rep.check(same, rule, key, where,
                   f'a named constant initialised by the {what} is exported as {items if items else "nothing"}; expected `{exp}` (declared type = the payload\'s type, value = the payload itself)',
                   ok_detail=exp)
     exp_names = [e[0] for e in expected]
